@@ -33,7 +33,7 @@ SumSeq(s) == IF s = <<>> THEN 0 ELSE Head(s) + SumSeq(Tail(s))
 \*   path    a = fill (0 none, 1 red, 2 red alpha 1/2, 3 linear gradient, 4 radial gradient, 5 linear gradient with three stops)
 \*           b = stroke (0 none, 1 blue, 2 blue alpha 1/2)   c = fill rule (0 NonZero, 1 EvenOdd)   d = closed
 \*   image   a = image (1 opaque, 2 and 3 with alpha => SMask)   b = encoding (0 lossless, 1 lossy/DCT)
-\*   text    a = font (1 TrueType "A", 2 CFF "B", 3 standard Type1 "Helvetica")  b = string   c = vertical
+\*   text    a = font (1 TrueType "A", 2 CFF "B", 3 standard Type1 "Helvetica")  b = string (1, 2 plain; 3..8 with ( ) \ )  c = vertical
 \*   link    a = uri class       newpage / skip: no arguments
 Call(k, a, b, c, d) == [k |-> k, a |-> a, b |-> b, c |-> c, d |-> d]
 Skip == Call("skip", 0, 0, 0, 0)
@@ -55,7 +55,8 @@ FullCalls ==
   LET paths == {Call("path", f, s, r, c) : f \in 0..4, s \in 0..2, r \in 0..1, c \in 0..1}
   IN {p \in paths : p.a # 0 \/ p.b # 0}
      \cup {Call("image", i, e, 0, 0) : i \in 1..3, e \in 0..1}
-     \cup {Call("text", f, s, 0, 0) : f \in 1..3, s \in 1..2} \cup {Call("text", f, 2, 1, 0) : f \in 1..2}
+     \cup {Call("text", f, s, 0, 0) : f \in 1..2, s \in 1..2} \cup {Call("text", f, 2, 1, 0) : f \in 1..2}
+     \cup {Call("text", 3, s, 0, 0) : s \in 1..8}      \* standard font: also the strings with parentheses and backslash
      \cup {Call("link", u, 0, 0, 0) : u \in 1..2}
      \cup {NewPageC}
 Calls == IF Alpha = "small" THEN SmallCalls ELSE FullCalls
@@ -211,6 +212,11 @@ Init ==
        [] Gen = "random" -> /\ prog \in RandomSubset(NRand, Progs)
                             /\ opts \in [compress : BOOLEAN, subset : BOOLEAN]
                             /\ info \in RandomSubset(2, AllProfiles) /\ infoAt \in {0, 1}
+       [] Gen = "std" ->    \* text in a standard (not embedded, WinAnsi literal strings) font: strings 3..8 are a(b  a)b  a\b  (x)
+                            \* "1) item :-("  "[0, 1)" - unbalanced / balanced parentheses and a backslash inside a shown string
+                            /\ prog \in {<<a, Call("text", 3, t, 0, 0), b>> : a \in {Call("path", 1, 0, 0, 1), Call("text", 1, 1, 0, 0), Call("text", 3, 1, 0, 0)},
+                                                                             t \in 3..8, b \in {Skip, Call("text", 3, 2, 0, 0), NewPageC}}
+                            /\ opts \in {OneTrue(TRUE), OneTrue(FALSE)} /\ info = Mixed /\ infoAt = 0
        [] Gen = "info" ->   /\ prog = [i \in 1..L |-> IF i = 1 THEN Call("path", 1, 0, 0, 1) ELSE Skip]
                             /\ opts \in (IF NRand = 0 THEN {OneTrue(TRUE)} ELSE {OneTrue(TRUE), OneTrue(FALSE)})
                             /\ info \in InfoSweep /\ infoAt \in {0, 1}
@@ -261,7 +267,8 @@ WroteIsFile == LET RECURSIVE Cat(_)
 \*   sub : <<<<first, count>>>>   xref : <<[n, off, gen, use]>>      size, root, info : trailer entries (-1 missing)
 \*   objs : <<[n, g, off, kind, st, len, act, dec, seol, refs, dup]>> in file order
 \*   cat : [kind, pages, lang]    tree : [count, leaves, badparent, badkid, cyclic]
-\*   pages : <<[n, res : [font, xobj, gs, pat, sh, cs], uses : <<[op, name]>>, ops : <<[op, n]>>, seq : <<op>>, ok]>>
+\*   pages : <<[n, res : [font, xobj, gs, pat, sh, cs], uses : <<[op, name]>>, ops : <<[op, n]>>, seq : <<op>>, ok,
+\*             shown : <<bytes>> the decoded string operands of every TJ / Tj shown in a simple (Type1, WinAnsi) font]>>
 \*   infod : [title, subject, keywords, author, creator]  byte sequences, <<-1>> when the key is absent
 ObjNums(doc) == {doc.objs[i].n : i \in 1..Len(doc.objs)}
 ObjOf(doc, n) == doc.objs[CHOOSE i \in 1..Len(doc.objs) : doc.objs[i].n = n]
@@ -446,6 +453,15 @@ TrailerSizeDiag(doc) ==
   \cup (IF doc.info = -1 \/ KindOf(doc, doc.info) \in {"dict", "Info"} THEN {} ELSE {"trailer-info"})
   \cup (IF \A i \in 1..Len(doc.objs) : ~doc.objs[i].dup THEN {} ELSE {"dictionary-duplicate-key"})
 TrailerSize(doc) == TrailerSizeDiag(doc) = {}
+
+\* Text shown in one of the 14 standard fonts is written as WinAnsi literal strings: the escaping of ( ) \ must round-trip,
+\* i.e. the decoded string operands are the characters the layout asked to show (want: one byte sequence per text object,
+\* taken by the driver from the laid-out glyphs).  A broken escape that still tokenises is seen only here.
+RECURSIVE CatSeqs(_)
+CatSeqs(ss) == IF ss = <<>> THEN <<>> ELSE Head(ss) \o CatSeqs(Tail(ss))
+ShownOf(doc) == CatSeqs([i \in 1..Len(doc.pages) |-> doc.pages[i].shown])
+InShownTextVerbatimDiag(doc, want) == IF ShownOf(doc) = want THEN {} ELSE {"shown-text-not-verbatim:standard-font"}
+InShownTextVerbatim(doc, want) == InShownTextVerbatimDiag(doc, want) = {}
 
 Diag(doc, req) == HeaderTrailerDiag(doc) \cup XrefCompleteDiag(doc) \cup OffsetsExactDiag(doc) \cup RefsResolveDiag(doc)
              \cup LengthsExactDiag(doc) \cup FiltersDecodeDiag(doc) \cup PageTreeCountsDiag(doc) \cup ResourcesDefinedDiag(doc)
